@@ -62,7 +62,7 @@ class C15(Check):
                  "deliberate raise and %-format of None is an error) of the Ethernet/VLAN/LLC-SNAP/ARP/IPv4/ICMP/TCP(+options)/UDP/LLDP parse, pack "
                  "and print paths + differential correspondence of the compiled model against the real classes on exhaustive truncation / "
                  "single-byte corruption / structure-aware / random frames + independent 'nothing raises, progress recorded' oracle on all 21 parsers")
-    rule = ("case = one byte string offered to ethernet(raw=...): a valid frame of the 70-frame corpus (all 21 modules), every truncation of it, "
+    rule = ("case = one byte string offered to ethernet(raw=...): a valid frame of the 84-frame corpus (all 21 modules), every truncation of it, "
             "all 256 values at its header-boundary offsets and the 8 single-bit flips elsewhere, structure-aware mutants (length fields, option/TLV "
             "lengths, header-length nibbles, DNS pointers, nesting) or random bytes; distinct = sha1 of the frame; non-trivial = ethernet header parsed "
             "and at least one further parser entered")
@@ -226,14 +226,32 @@ class C15(Check):
         out.append(["none"] if o is None else ["bytes", len(o)] if isinstance(o, bytes) else ["!" + type(o).__name__])
         return out
 
+    HDR_LEN = {"ethernet": 14, "vlan": 4, "arp": 28, "udp": 8, "echo": 4, "unreach": 4, "time_exceeded": 4}
+
     def _slices_ok(self, o, frame):
-        """every kept remainder (raw of an object that gave up, terminal bytes) is a contiguous slice of the frame"""
+        """'keeps the unparsed remainder as raw bytes', checked with the harness's own knowledge of the header sizes (no library code, no model):
+        the top object holds the whole frame; every kept remainder is a contiguous slice of the frame; for the classes whose header length the
+        harness knows, the bytes of the next layer (object or raw bytes) start right behind the header and run to the end of the object's bytes
+        (IPv4: to its total-length field, clamped to the buffer)."""
         n = 0
+        if getattr(o, "raw", None) != frame: return "the ethernet object does not keep the frame"
         while isinstance(o, self.packet_base) and n < 4000:
             n += 1
             r = getattr(o, "raw", None)
             if isinstance(r, bytes) and r not in frame: return "raw of %s is not a slice of the frame" % type(o).__name__
-            o = getattr(o, "next", None)
+            nx = getattr(o, "next", None)
+            name = type(o).__name__; mod = type(o).__module__.rsplit(".", 1)[-1]
+            if isinstance(r, bytes) and getattr(o, "parsed", False) is True and nx is not None and (name not in ("echo", "unreach") or mod == "icmp"):
+                hl = self.HDR_LEN.get(name)
+                if name == "ipv4": hl = o.hl * 4
+                elif name == "tcp" and mod == "tcp": hl = o.off * 4
+                elif name == "llc": hl = o.length
+                nb = nx if isinstance(nx, bytes) else getattr(nx, "raw", None)
+                if hl is not None and isinstance(nb, bytes):
+                    end = min(o.iplen, len(r)) if name == "ipv4" else len(r)
+                    if r[hl:end] != nb:
+                        return "%s: the bytes of the next layer are not raw[%d:%d] (%d bytes kept, %d expected)" % (name, hl, end, len(nb), max(0, end - hl))
+            o = nx
         if isinstance(o, bytes) and o not in frame: return "terminal bytes are not a slice of the frame"
         return None
 
@@ -509,7 +527,7 @@ C15.level_text = (
     "is defined (repack_total_partial), str()/dump() is defined (print_total_partial); whenever it returns, the total C14 parser returns the same chain (refines_c14). "
     "Also proved: for every nesting budget d a frame of 14+4d bytes raises RecursionError (nesting_defect, not repaired), and five concrete defects of HEAD "
     "(D14, TLV bodies, llc/lldp printing, TCP option overrunning the header) with their repaired counterparts. Every run re-checks the model against the real "
-    "classes on every truncation and single-byte corruption of 87 valid frames covering all 21 modules and evaluates the 'nothing raises, progress recorded' oracle.")
+    "classes on every truncation and single-byte corruption of 84 valid frames covering all 21 modules and evaluates the 'nothing raises, progress recorded' oracle.")
 C15.level_note = (
     "The theorems are about the hand-written model Model/PacketParse.lean of the code AFTER the proposed repairs D14, C15-1..C15-4 (not yet committed: on /repo the check "
     "reports the violations); they are tied to the code only by the differential run. PARTIAL: layers handed to ipv6, icmpv6 (incl. NDP), dhcp, dns, rip, vxlan, igmp, "
